@@ -6,7 +6,7 @@
    Gfa resolves to a line of the Gfa of the right kind, no line of the Gfa refers to a removed line, identities and
    identifiers are unique — in every state reached by any finite history, failed operations included. *)
 From Coq Require Import List String Ascii ZArith Bool.
-From GfaV Require Import Base.Py Model.Codec Model.Line Model.Graph Proofs.GraphP.
+From GfaV Require Import Base.Py Model.Codec Model.Line Model.Graph Proofs.GraphP Proofs.RenameP.
 Import ListNotations.
 Open Scope string_scope.
 
@@ -23,6 +23,42 @@ Print Assumptions C02_invariant_every_reachable_state.
 Theorem C02_initial_state : forall v vl, Inv (init_gfa v vl).
 Proof. exact inv_init. Qed.
 Print Assumptions C02_initial_state.
+
+(* renaming keeps the graph closed: with an identifier that is non-empty, not the placeholder and free of the list
+   separators (what every validation level above 0 enforces) and a line that does not mention itself (F50) *)
+Theorem C02_rename_keeps_the_invariant : forall s old new s',
+  Inv s -> rename_guard s old new -> rename s old new = Ok s' -> Inv s'.
+Proof. exact rename_inv. Qed.
+Print Assumptions C02_rename_keeps_the_invariant.
+
+Theorem C02_invariant_every_reachable_state_with_renames : forall O ops s,
+  Inv s -> guards3_hold O s ops -> Inv (run_ops O s ops).
+Proof. exact inv_reachable3. Qed.
+Print Assumptions C02_invariant_every_reachable_state_with_renames.
+
+(* non-vacuity of the rename theorem: the guard holds in a state with a link, a containment and a path over the renamed
+   segment, the rename succeeds, and the text afterwards mentions only the new identifier *)
+Example C02_rename_witness :
+  let t := String tab EmptyString in
+  let s := run_texts "gfa1" [OAdd ("S" ++ t ++ "A" ++ t ++ "*"); OAdd ("S" ++ t ++ "B" ++ t ++ "*");
+                             OAdd ("L" ++ t ++ "A" ++ t ++ "+" ++ t ++ "B" ++ t ++ "-" ++ t ++ "*");
+                             OAdd ("C" ++ t ++ "B" ++ t ++ "+" ++ t ++ "A" ++ t ++ "-" ++ t ++ "0" ++ t ++ "*");
+                             OAdd ("P" ++ t ++ "p" ++ t ++ "A+,B-" ++ t ++ "*")] in
+  rename_guard s "A" "N" /\
+  match rename s "A" "N" with
+  | Ok s' => closed_b s' = true /\ names_unique_b s' = true /\
+             map gl_text (lines s') = ["S" ++ t ++ "B" ++ t ++ "*";
+                                       "L" ++ t ++ "N" ++ t ++ "+" ++ t ++ "B" ++ t ++ "-" ++ t ++ "*";
+                                       "C" ++ t ++ "B" ++ t ++ "+" ++ t ++ "N" ++ t ++ "-" ++ t ++ "0" ++ t ++ "*";
+                                       "P" ++ t ++ "p" ++ t ++ "N+,B-" ++ t ++ "*";
+                                       "S" ++ t ++ "N" ++ t ++ "*"]
+  | Err _ => False
+  end.
+Proof.
+  cbv zeta. split.
+  - split; [reflexivity | split; [reflexivity|]]. intros x H. vm_compute in H. injection H as <-. intros m [].
+  - vm_compute. repeat split.
+Qed.
 
 (* removal leaves no reference to a removed line: it removes exactly the dependency closure and what remains is closed *)
 Theorem C02_removal_closed : forall s x s',
